@@ -16,13 +16,23 @@ for DIR in ids:
     dst = '/verif/seeded/%s' % DIR
     meta = json.load(open(dst + '/meta.json'))
     rc, o = sh('git -C /repo apply --check %s/patch.diff' % dst)
+    if rc != 0 and sh('git -C /repo apply --check -C1 %s/patch.diff' % dst)[0] == 0:
+        # context moved by a later fix: apply with reduced context and store the refreshed patch
+        sh('git -C /repo apply -C1 %s/patch.diff' % dst); _, d = sh('git -C /repo diff'); sh('git -C /repo checkout -- .')
+        shutil.copy(dst + '/patch.diff', dst + '/patch.orig.diff'); open(dst + '/patch.diff', 'w').write(d); rc = 0
     if rc != 0:
         print(DIR, 'patch no longer applies to /repo HEAD:', o.strip()[:200]); meta['recheck'] = 'patch does not apply'; missed += 1
     else:
         sh('git -C /repo apply %s/patch.diff' % dst)
+        others = [c for c in meta.get('check_verdicts', {}) if c != PID]      # checks of other properties that caught it before
+        other_caught = []
         try:
             t = time.time()
             rcc, oc = sh('VERIF_EVIDENCE_DIR=/verif/build/seed-evidence ./check %s quick' % PID, cwd='/verif')
+            for c in others:
+                rco, oco = sh('VERIF_EVIDENCE_DIR=/verif/build/seed-evidence ./check %s quick' % c, cwd='/verif')
+                if rco == 1 and any(l.startswith('VIOLATION') for l in oco.split('\n')):
+                    other_caught.append(c)
         finally:
             sh('git -C /repo checkout -- .')
         v = [l for l in oc.split('\n') if l.startswith('VIOLATION')]
@@ -31,12 +41,12 @@ for DIR in ids:
             rp = v[0].split('replay=')[1].split()[0]
             if os.path.exists(rp):
                 shutil.copy(rp, os.path.join(dst, 'replay-%s.txt' % PID))
-        caught = rcc == 1 and bool(v)
-        concrete = caught and 'no-failing-input-found' not in v[0]
+        caught = (rcc == 1 and bool(v)) or bool(other_caught)
+        concrete = bool(v) and rcc == 1 and 'no-failing-input-found' not in v[0]
         meta['recheck'] = dict(head=sh('git -C /repo rev-parse --short HEAD')[1].strip(), exit=rcc, violation_line=v[0] if v else None,
-                               summary=last[0] if last else '', wall_s=round(time.time() - t), concrete_input=concrete)
+                               summary=last[0] if last else '', wall_s=round(time.time() - t), concrete_input=concrete, caught_by_other_checks=other_caught)
         meta['caught'] = caught
         missed += 0 if caught else 1
-        print(DIR, 'caught' if caught else 'MISSED', 'concrete-input' if concrete else ('no-failing-input-found' if caught else ''), (last[0] if last else '')[:160])
+        print(DIR, 'caught' if caught else 'MISSED', 'concrete-input' if concrete else (('by ' + ','.join(other_caught)) if other_caught else ('no-failing-input-found' if caught else '')), (last[0] if last else '')[:160])
     json.dump(meta, open(dst + '/meta.json', 'w'), indent=1)
 sys.exit(1 if missed else 0)
